@@ -337,15 +337,20 @@ func (db *MultiBucketBackend) ForceDeleteBucket(name string) error {
 }
 
 func (db *MultiBucketBackend) BucketExists(name string) (exists bool, err error) {
+	db.lock.Lock()
+	defer db.lock.Unlock()
+	return db.bucketExistsLocked(name)
+}
+
+// bucketExistsLocked is the check every object operation makes as well: the
+// copy handler reads its source without asking BucketExists first, and
+// "./bucket/key" must not be served as the key "bucket/key" of a bucket ".".
+func (db *MultiBucketBackend) bucketExistsLocked(name string) (exists bool, err error) {
 	// "." and ".." exist as directories but are not buckets:
 	if err := gofakes3.ValidateBucketName(name); err != nil {
 		return false, nil
 	}
-
-	db.lock.Lock()
-	defer db.lock.Unlock()
-	exists, err = afero.Exists(db.bucketFs, name)
-	return
+	return afero.Exists(db.bucketFs, name)
 }
 
 func (db *MultiBucketBackend) HeadObject(bucketName, objectName string) (*gofakes3.Object, error) {
@@ -357,7 +362,7 @@ func (db *MultiBucketBackend) HeadObject(bucketName, objectName string) (*gofake
 	defer db.lock.Unlock()
 
 	// Another slighly racy check:
-	exists, err := afero.Exists(db.bucketFs, bucketName)
+	exists, err := db.bucketExistsLocked(bucketName)
 	if err != nil {
 		return nil, err
 	} else if !exists {
@@ -400,7 +405,7 @@ func (db *MultiBucketBackend) GetObject(bucketName, objectName string, rangeRequ
 	defer db.lock.Unlock()
 
 	// Another slighly racy check:
-	exists, err := afero.Exists(db.bucketFs, bucketName)
+	exists, err := db.bucketExistsLocked(bucketName)
 	if err != nil {
 		return nil, err
 	} else if !exists {
@@ -494,7 +499,7 @@ func (db *MultiBucketBackend) PutObject(
 	defer db.lock.Unlock()
 
 	// Another slighly racy check:
-	exists, err := afero.Exists(db.bucketFs, bucketName)
+	exists, err := db.bucketExistsLocked(bucketName)
 	if err != nil {
 		return result, err
 	} else if !exists {
@@ -577,7 +582,7 @@ func (db *MultiBucketBackend) DeleteObject(bucketName, objectName string) (resul
 	defer db.lock.Unlock()
 
 	// Another slighly racy check:
-	exists, err := afero.Exists(db.bucketFs, bucketName)
+	exists, err := db.bucketExistsLocked(bucketName)
 	if err != nil {
 		return result, err
 	} else if !exists {
@@ -634,7 +639,7 @@ func (db *MultiBucketBackend) DeleteMulti(bucketName string, objects ...string) 
 	defer db.lock.Unlock()
 
 	// Another slighly racy check:
-	exists, err := afero.Exists(db.bucketFs, bucketName)
+	exists, err := db.bucketExistsLocked(bucketName)
 	if err != nil {
 		return result, err
 	} else if !exists {
